@@ -1,9 +1,9 @@
 package tab
 
 import (
-	"go/token"
 	"fmt"
 	"go/constant"
+	"go/token"
 	"go/types"
 	"sort"
 	"strings"
@@ -22,11 +22,18 @@ type Row struct {
 	Dup     bool // the same key is assigned more than once (later assignment wins)
 }
 
+// TableRef is what the reference snapshot (tables.json) keeps of a table.
+type TableRef struct {
+	ValType  string   `json:"valtype"`
+	Patterns []string `json:"patterns"`
+}
+
 // Table is a pattern-keyed map read from the source.
 type Table struct {
-	Name string // "override.mergeSpecials", "paths.relativePathsResolver.resolvers"
-	Rows []Row
-	Errs []string // keys / values that did not fold to constants (undecided)
+	ValType string // element type of the map (or "Path" for slices of paths), unqualified: identifies the table when its variable is renamed
+	Name    string // "override.mergeSpecials", "paths.relativePathsResolver.resolvers"
+	Rows    []Row
+	Errs    []string // keys / values that did not fold to constants (undecided)
 }
 
 // ExtractTables finds every map keyed by tree.Path (or a slice of tree.Path)
@@ -56,6 +63,7 @@ func ExtractTables(p *prog.Program) (map[string]*Table, error) {
 						continue // a local working map, not a table
 					}
 					t := get(name)
+					t.ValType = types.TypeString(mt.Elem(), func(*types.Package) string { return "" })
 					// `for _, p := range []tree.Path{...} { table[p] = f }`: one row per element of the literal
 					if ld, isLoad := x.Key.(*ssa.UnOp); isLoad && ld.Op == token.MUL {
 						if ia, isIA := ld.X.(*ssa.IndexAddr); isIA {
@@ -88,6 +96,7 @@ func ExtractTables(p *prog.Program) (map[string]*Table, error) {
 						continue
 					}
 					t := get(p.Rel(g.Pkg.Pkg) + "." + g.Name())
+					t.ValType = "[]Path"
 					vals, err := ev.strs(x.Val, nil, 0)
 					if err != nil {
 						t.Errs = append(t.Errs, fmt.Sprintf("%s: %v", p.InstrPos(x), err))
